@@ -44,8 +44,6 @@ def extract():
         Const("kBackoffFactorBase", "src/core/Node.cpp",
               r"factor\s*=\s*static_cast<int>\(\s*([0-9]+)\s*<<\s*clamped_exponent\s*\)", default=1,
               doc="the doubling: factor = 1 << exponent"),
-        Const("kBackoffFloorSeconds", "src/core/Node.cpp",
-              r"if\s*\(backoff\s*<=\s*std::chrono::seconds::zero\(\)\)\s*\{\s*backoff\s*=\s*std::chrono::seconds\{([^}]*)\}", default=1),
     ])
     vals.update(more)
     write_generated(PID, lean_consts(vals))
@@ -195,8 +193,8 @@ def spec() -> Spec:
         generate=generate,
         extract=extract,
         nontrivial=nontrivial,
-        budget={"quick": 900, "thorough": 25000},
-        search_budget={"quick": 2000, "thorough": 35000},
+        budget={"quick": 800, "thorough": 7000},
+        search_budget={"quick": 1800, "thorough": 10000},
         rule="random histories of ann/hann/arr/tick/adv/link/unlink/prov over 1-3 providers and 1-5 chunks; initial back-off "
              "0/1/2/3/5 s, maximum 0/1/2/5/12/60/1000 s, success interval 0/1/4/15 s, attempt limits 0..7 and 12, parallel limit "
              "0..3; re-announces of in-flight fetches by the same and by another provider; manifests expiring mid-retry, already "
